@@ -73,7 +73,7 @@ def _walk_types(T):
         elif tag in ("tuple", "union"):
             for e in T[1]:
                 yield from _walk_types(e)
-        elif tag == "utuple":
+        elif tag in ("utuple", "ustar"):
             for e in T[1] + [T[2]] + T[3]:
                 yield from _walk_types(e)
         elif tag in ("newtype", "fwd"):
@@ -107,7 +107,7 @@ def features(rec) -> list:
             out.add("union-none-3plus")
         if t[0] in ("tuple",) and ["none"] in t[1]:
             out.add("none-typed-element")
-        if t[0] == "utuple" and (["none"] in t[1] or ["none"] in t[3] or t[2] == ["none"]):
+        if t[0] in ("utuple", "ustar") and (["none"] in t[1] or ["none"] in t[3] or t[2] == ["none"]):
             out.add("none-typed-element")
         if t[0] in ("ntuple", "tdict") and any(f[1] == ["none"] for f in t[2]):
             out.add("none-typed-element")
@@ -144,7 +144,7 @@ def features(rec) -> list:
                         out.add("call-dialect-option-shadowed-by-flag-default")
     inp = rec.get("input")
     if inp is not None:
-        need = [len(t[1]) + len(t[3]) for t in subs if t[0] == "utuple"]
+        need = [len(t[1]) + len(t[3]) for t in subs if t[0] in ("utuple", "ustar")]
         if need:
             for s_ in _subterms(inp):
                 if isinstance(s_, list) and len(s_) == 2 and s_[0] in ("list", "str") and isinstance(s_[1], (list, str)):
